@@ -162,6 +162,8 @@ pub struct TxSpec {
     pub balanced: bool,
     /// `locals { .. }` entries
     pub locals: Vec<(String, Amount)>,
+    /// order in which the kinds of blocks are written (0: the usual order)
+    pub layout: u64,
 }
 
 #[derive(Clone, Debug, Default)]
@@ -177,6 +179,8 @@ pub struct Program {
     pub has_act: bool,
     pub env: Vec<(String, Ty)>,
     pub txs: Vec<TxSpec>,
+    /// order in which the top-level sections are written (0: the usual order)
+    pub layout: u64,
 }
 
 pub fn addr_for(i: usize, network_main: bool, base: bool) -> Vec<u8> {
@@ -247,6 +251,27 @@ impl Program {
     }
 
     pub fn source(&self) -> String {
+        let s = self.source_in_order();
+        if self.layout == 0 {
+            return s;
+        }
+        // declarations may come in any order: permute the top-level sections (a section starts at a
+        // line that begins a declaration and runs to the next such line)
+        let mut sections: Vec<String> = vec![];
+        for line in s.lines() {
+            let starts = ["env ", "party ", "policy ", "asset ", "type ", "tx "].iter().any(|k| line.starts_with(k));
+            if starts || sections.is_empty() {
+                sections.push(String::new());
+            }
+            let last = sections.last_mut().unwrap();
+            last.push_str(line);
+            last.push('\n');
+        }
+        permute(&mut sections, self.layout);
+        sections.concat()
+    }
+
+    fn source_in_order(&self) -> String {
         let mut s = String::new();
         if !self.env.is_empty() {
             s.push_str("env {\n");
@@ -312,6 +337,38 @@ impl Program {
     }
 
     fn tx_source(&self, tx: &TxSpec) -> String {
+        let s = self.tx_source_in_order(tx);
+        if tx.layout == 0 {
+            return s;
+        }
+        // blocks of one kind keep their relative order (outputs are positional); the kinds move
+        let lines: Vec<&str> = s.lines().collect();
+        let open = lines.iter().position(|l| l.starts_with(") {")).unwrap_or(0);
+        let head: Vec<&str> = lines[..=open].to_vec();
+        let mut groups: Vec<(String, String)> = vec![];
+        let mut cur: Option<(String, String)> = None;
+        for l in &lines[open + 1..lines.len() - 1] {
+            if cur.is_none() {
+                let kind: String = l.trim_start().split(|c: char| c == ' ' || c == '{').next().unwrap_or("").trim_end_matches('*').to_string();
+                cur = Some((kind, String::new()));
+            }
+            let c = cur.as_mut().unwrap();
+            c.1.push_str(l);
+            c.1.push('\n');
+            if *l == "    }" {
+                let (k, text) = cur.take().unwrap();
+                match groups.iter_mut().find(|(gk, _)| *gk == k) {
+                    Some(g) => g.1.push_str(&text),
+                    None => groups.push((k, text)),
+                }
+            }
+        }
+        let mut texts: Vec<String> = groups.into_iter().map(|(_, t)| t).collect();
+        permute(&mut texts, tx.layout);
+        format!("{}\n{}}}\n", head.join("\n"), texts.concat())
+    }
+
+    fn tx_source_in_order(&self, tx: &TxSpec) -> String {
         let mut s = String::new();
         s.push_str(&format!("tx {}(\n", tx.name));
         for (n, t) in &tx.params {
@@ -495,6 +552,16 @@ impl Program {
     }
 }
 
+/// a permutation of `xs` decided by `seed` alone (Fisher-Yates over a small LCG)
+fn permute<T>(xs: &mut [T], seed: u64) {
+    let mut x = seed.wrapping_mul(0x9E37_79B9_7F4A_7C15) | 1;
+    for i in (1..xs.len()).rev() {
+        x = x.wrapping_mul(6364136223846793005).wrapping_add(1442695040888963407);
+        let j = ((x >> 33) as usize) % (i + 1);
+        xs.swap(i, j);
+    }
+}
+
 fn pty(t: &Ty) -> &'static str {
     match t {
         Ty::Int => "Int",
@@ -585,6 +652,8 @@ pub fn gen_program(t: &mut Tape, cfg: &GenCfg) -> Program {
         let tx = gen_tx(t, cfg, &mut p, k);
         p.txs.push(tx);
     }
+    // one program in four is written with its declarations in another order
+    p.layout = if t.chance(1, 4) { 1 + t.draw(1 << 20) } else { 0 };
     p
 }
 
@@ -981,6 +1050,8 @@ fn gen_tx(t: &mut Tape, cfg: &GenCfg, p: &mut Program, k: usize) -> TxSpec {
         }
     }
     tx.params = params;
+    // one transaction in four is written with its blocks in another order
+    tx.layout = if t.chance(1, 4) { 1 + t.draw(1 << 20) } else { 0 };
     tx
 }
 
